@@ -16,6 +16,9 @@
 #ifndef SIM_ASAN
 #define SIM_ASAN 0
 #endif
+#if SIM_ASAN
+#include <sanitizer/asan_interface.h>
+#endif
 
 void (*g_yield_hook)(int kind) = nullptr;
 __thread int g_in_library = 0;
@@ -48,8 +51,8 @@ static const uint8_t *cstr_arg(const Bytes &text, uint64_t selector, Block &owne
 // every entry into library code is bracketed, so that libc wraps and the allocator gate can tell library calls from harness calls
 #define LIB(x) do { g_in_library++; x; g_in_library--; } while (0)
 
-Block block_alloc(size_t n, int guard_mode) {
-    Block b; b.n = n; b.mode = guard_mode;
+Block block_alloc(size_t n, int guard_mode, int lead) {
+    Block b; b.n = n; b.mode = guard_mode; b.lead = (size_t)lead;
     if (guard_mode == 1) {
         size_t pg = (size_t)sysconf(_SC_PAGESIZE);
         size_t pages = (n + pg - 1) / pg + 1;
@@ -61,17 +64,20 @@ Block block_alloc(size_t n, int guard_mode) {
         memset(b.base, 0xCB, pages * pg - n);
         return b;
     }
+    // `lead`: the caller's data does not start on an allocator boundary (a message inside a larger receive buffer, a
+    // field of a packed struct): the block begins `lead` bytes into the allocation; its END is still exact.
 #if SIM_ASAN
-    b.base = (uint8_t *)malloc(n);              // exact size: ASan red zones on both sides; n == 0 gives a pointer with no accessible byte
+    b.base = (uint8_t *)malloc(n + b.lead);     // exact size: ASan red zones on both sides; n == 0 gives a pointer with no accessible byte
     if (!b.base) abort();
-    b.p = b.base; b.total = n;
+    b.p = b.base + b.lead; b.total = n + b.lead;
+    if (b.lead) { memset(b.base, 0xCB, b.lead); ASAN_POISON_MEMORY_REGION(b.base, b.lead); }   // (whole 8-byte granules only: the last partial one stays readable)
 #else
-    b.total = n + 2 * CANARY;
+    b.total = n + b.lead + 2 * CANARY;
     b.base = (uint8_t *)malloc(b.total);
     if (!b.base) abort();
-    memset(b.base, 0xCB, CANARY);
-    memset(b.base + CANARY + n, 0xCB, CANARY);
-    b.p = b.base + CANARY;
+    memset(b.base, 0xCB, CANARY + b.lead);
+    memset(b.base + CANARY + b.lead + n, 0xCB, CANARY);
+    b.p = b.base + CANARY + b.lead;
 #endif
     return b;
 }
@@ -79,7 +85,12 @@ Block block_alloc(size_t n, int guard_mode) {
 void block_free(Block &b) {
     if (!b.base) return;
     if (b.mode == 1) munmap(b.base, b.total);
-    else free(b.base);
+    else {
+#if SIM_ASAN
+        if (b.lead) ASAN_UNPOISON_MEMORY_REGION(b.base, b.lead);
+#endif
+        free(b.base);
+    }
     b = Block();
 }
 
@@ -89,7 +100,8 @@ bool block_canary_ok(const Block &b) {
 #if SIM_ASAN
     return true;
 #else
-    for (size_t i = 0; i < CANARY; i++) if (b.base[i] != 0xCB || b.base[CANARY + b.n + i] != 0xCB) return false;
+    for (size_t i = 0; i < CANARY + b.lead; i++) if (b.base[i] != 0xCB) return false;
+    for (size_t i = 0; i < CANARY; i++) if (b.base[CANARY + b.lead + b.n + i] != 0xCB) return false;
     return true;
 #endif
 }
@@ -117,6 +129,12 @@ static void sim_cb(binson_parser *parser, uint16_t next_state, void *ctx) {
     (void)parser; (void)next_state;
     PSession *s = (PSession *)ctx;
     s->cb_count++;
+    // A container BEGIN that is reported but left in place (the parser "parks" in front of it and consumes it on the next
+    // advance) is the same token reported twice: counted separately, so that tokens are compared with bytes advanced.
+    // Recognised from the wire format only: no byte consumed since the previous event and the next byte is a BEGIN.
+    if (parser->buffer_used == s->cb_last_used && parser->buffer_used < parser->buffer_size &&
+        (parser->buffer[parser->buffer_used] == 0x40 || parser->buffer[parser->buffer_used] == 0x42)) s->park_count++;
+    s->cb_last_used = parser->buffer_used;
     if (s->cb_count > s->budget) siglongjmp(s->jb, 1);
     if (g_yield_hook) { int saved = g_in_library; g_in_library = 0; g_yield_hook(Y_TOKEN); g_in_library = saved; }
 }
@@ -161,7 +179,7 @@ void PSession::scribble(uint64_t seed) {
 void PSession::deliver(size_t len) {
     if (len > src.size()) len = src.size();
     block_free(bblk);
-    bblk = block_alloc(len, guard_mode);
+    bblk = block_alloc(len, guard_mode, guard_mode == 0 ? lead : 0);
     if (len) memcpy(bblk.p, src.data(), len);
     copy.assign(src.begin(), src.begin() + (long)len);
 }
@@ -226,7 +244,7 @@ __attribute__((noinline)) void PSession::do_call(const Op &op, Outcome &o) {
             break;
         }
         case P_RESET: LIB(o.ret = binson_parser_reset(p)); break;
-        case P_VERIFY: budget = bblk.n + 16; LIB(o.ret = binson_parser_verify(p)); break;
+        case P_VERIFY: budget = 2 * bblk.n + 16; LIB(o.ret = binson_parser_verify(p)); break;
         case P_DEPTH: LIB(o.ival = (int64_t)binson_parser_get_depth(p)); o.ret = true; break;
         case P_NEXT: LIB(o.ret = binson_parser_next(p)); break;
         case P_NEXT_ENSURE: LIB(o.ret = binson_parser_next_ensure(p, (binson_type)(op.c % 10))); break;
@@ -354,8 +372,8 @@ Outcome PSession::call(const Op &op) {
     if (g_yield_hook) g_yield_hook(Y_CALL);
     bool was_latched = inited && err() != 0;
     size_t used_before = inited ? p->buffer_used : 0;
-    cb_count = 0;
-    budget = bblk.n + 16;
+    cb_count = 0; park_count = 0; cb_last_used = used_before;
+    budget = 2 * bblk.n + 16;       // every byte may be looked at once while parked in front of it and once when consumed
     calls++; steps++;
     if (was_latched && !is_restart(op.code)) post_error_calls++;
 
@@ -413,8 +431,10 @@ Outcome PSession::call(const Op &op) {
         } else if (!was_latched && !latched) {
             long adv = (long)o.used - (long)used_before;
             uint64_t room = adv > 0 ? (uint64_t)adv : 0;
-            if (o.cb > room + 2) sink.fail("C16.linear.call", fmt("%s made %llu callbacks while advancing %ld bytes", name, (unsigned long long)o.cb, adv));
-            uint64_t slack = o.cb > room ? o.cb - room : 0;
+            uint64_t tokens = o.cb - park_count;
+            if (tokens > room + 2) sink.fail("C16.linear.call", fmt("%s processed %llu tokens (%llu callbacks, %llu of them for a BEGIN left in place) while advancing %ld bytes", name, (unsigned long long)tokens, (unsigned long long)o.cb, (unsigned long long)park_count, adv));
+            else if (park_count > tokens + 1) sink.fail("C16.linear.call", fmt("%s looked %llu times at a container BEGIN without consuming it, but processed only %llu tokens", name, (unsigned long long)park_count, (unsigned long long)tokens));
+            uint64_t slack = tokens > room ? tokens - room : 0;
             if (slack > max_slack) max_slack = slack;
         }
     }
